@@ -205,3 +205,18 @@ Definition bplan_ok (bp : bplan) : bool :=
   | CeilBatches b => Nat.ltb 0 b
   end.
 Definition bplan_today : bplan := NoBatch.
+
+(* ---- random streams over the legs of a resumed run ------------------------------------------------------ *)
+(* A generator state is (stream id, offset).  A fresh process has a stream of its own (OS entropy: the ids of
+   different processes differ); the k-th draw of a leg is (stream, k).  What the resume path does to the
+   generators: nothing, or seeding them from the pickled seed. *)
+Inductive seff := SKeep | SReseed.
+Definition is_reseed (e : seff) : bool := match e with SReseed => true | SKeep => false end.
+Definition seeding_ok (effs : list seff) : bool := forallb (fun e => negb (is_reseed e)) effs.
+Definition leg_draws (effs : list seff) (seed : nat) (leg : nat * nat) : list (nat * nat) :=
+  let sid := if existsb is_reseed effs then seed else fst leg in
+  map (fun k => (sid, k)) (seq 0 (snd leg)).
+(* legs = (entropy of the process, number of draws) *)
+Definition run_draws (effs : list seff) (seed : nat) (legs : list (nat * nat)) : list (nat * nat) :=
+  flat_map (leg_draws effs seed) legs.
+Definition seeding_today : list seff := [].
